@@ -106,7 +106,7 @@ def run(chk, replay=None):
         'std::map<string,double> of base exponents (zeros and dimensionless erased) is modelled by its lookup function; size+inclusion comparison is modelled by pointwise equality',
         'exponents and log-multipliers are exact rationals in the model; the correspondence uses dyadic exponents and power-of-ten multipliers so that every double operation of the implementation is exact; areEqual()/pow rounding is not modelled',
         'imports: an imported units is an alias of an entry of a library model; importing a user-defined *base* unit (keyed by the importing name in the code) is outside the model and not generated',
-        'the validator hint multiplier (updateBaseUnitCount) and the analyser copy of the units arithmetic are not modelled yet',
+        'the own reduction to base units of the validator (updateBaseUnitCount) is not modelled: its verdict on connected variables is compared with Units::compatible on the implementation; its hint multiplier and the analyser copy of the units arithmetic are not covered',
         'cyclic units definitions are outside this property (C01/C04)']
     chk.cov['trusted_base'] += ['harness/hx_units.cpp + lean/Cellml/Engine/Units.lean', 'gen/tables.py: standard tables printed by a program including utilities.h', 'python exact-fraction reference for base exponents (checks/C08.py)']
     if not ok:
@@ -164,6 +164,21 @@ def run(chk, replay=None):
                     same = False
             if not same:
                 disagree.append((l, 'query %d impl (%s)' % (qi, a), 'model (%s)' % b))
+            # the validator's verdict on connected variables with these units is the one Units::compatible gives
+            def via_import(op):
+                mo = re.match(r'\(u (\d+)\)', op)
+                if not mo or not metas[li] or int(mo.group(1)) >= len(metas[li][0]):
+                    return True
+                env_ = metas[li][0]
+                def go(i):
+                    d = env_[i]
+                    return d[0] == 'a' or any(k == 'u' and go(j) for k, j, _p, _e, _l in d[1])
+                return go(int(mo.group(1)))
+            # (the validator does not follow imported units: pairs that reach an import are left out)
+            if len(ta) > 6 and ta[6] in '01' and metas[li] and not via_import(metas[li][1][qi][0]) and not via_import(metas[li][1][qi][1]):
+                hist['validator_verdicts'] = hist.get('validator_verdicts', 0) + 1
+                if (ta[6] == '1') != (ta[0] != '1'):
+                    orafail.append((l, 'query %d: the validator %s non-matching units for connected variables although Units::compatible says %s: (%s)' % (qi, 'reports' if ta[6] == '1' else 'does not report', ta[0], a)))
             if ta[5] != '1':
                 orafail.append((l, 'query %d: scalingFactor is inconsistent with the unit multipliers or factor(a,b)*factor(b,a) != 1: (%s)' % (qi, a)))
             if ta[0] == '1':
